@@ -2,9 +2,11 @@ package vh
 
 import (
 	"context"
+	"errors"
 	"net"
 	"os"
 	"path/filepath"
+	"sync/atomic"
 	"testing"
 
 	"go.etcd.io/bbolt"
@@ -25,7 +27,7 @@ import (
 )
 
 // StackNames lists every CoreState implementation / wrapper stack the drivers know.
-var StackNames = []string{"inmem", "inmem-small", "bolt", "bolt-enc", "bolt-zstd", "filter", "remote"}
+var StackNames = []string{"inmem", "inmem-small", "bolt", "bolt-enc", "bolt-zstd", "bolt-faulty", "filter", "remote"}
 
 // Marshaler returns a named store marshaler stacking.
 func Marshaler(name string) store.Marshaler {
@@ -60,9 +62,9 @@ func NewStack(t testing.TB, name string) state.CoreState {
 		return namespaced.NewState(func(ns resource.Namespace) state.CoreState {
 			return inmem.NewStateWithOptions(inmem.WithHistoryInitialCapacity(2), inmem.WithHistoryMaxCapacity(4), inmem.WithHistoryGap(1))(ns)
 		})
-	case "bolt", "bolt-enc", "bolt-zstd":
+	case "bolt", "bolt-enc", "bolt-zstd", "bolt-faulty":
 		m := "pb"
-		if len(name) > 5 {
+		if len(name) > 5 && name != "bolt-faulty" {
 			m = name[5:]
 		}
 
@@ -76,6 +78,15 @@ func NewStack(t testing.TB, name string) state.CoreState {
 		}
 
 		t.Cleanup(func() { bs.Close() }) //nolint:errcheck
+
+		if name == "bolt-faulty" {
+			// every third write to the backing store is rejected (deterministic): the operation must fail and leave no trace
+			n := &atomic.Int64{}
+
+			return namespaced.NewState(func(ns resource.Namespace) state.CoreState {
+				return inmem.NewStateWithOptions(inmem.WithBackingStore(&FaultyStore{BackingStore: bs.WithNamespace(ns), N: n, Every: 3}))(ns)
+			})
+		}
 
 		return namespaced.NewState(func(ns resource.Namespace) state.CoreState {
 			return inmem.NewStateWithOptions(inmem.WithBackingStore(bs.WithNamespace(ns)))(ns)
@@ -135,4 +146,31 @@ func NewRemote(t testing.TB, backing state.State, opts ...client.AdapterOption) 
 	t.Cleanup(func() { conn.Close() }) //nolint:errcheck
 
 	return srv, client.NewAdapter(v1alpha1.NewStateClient(conn), opts...)
+}
+
+// ErrInjected is the error of a write the FaultyStore rejects.
+var ErrInjected = errors.New("verif: injected backing store failure")
+
+// FaultyStore rejects every Every-th Put / Destroy (counted over all namespaces sharing N).
+type FaultyStore struct {
+	inmem.BackingStore
+
+	N     *atomic.Int64
+	Every int64
+}
+
+func (f *FaultyStore) Put(ctx context.Context, typ resource.Type, r resource.Resource) error {
+	if f.N.Add(1)%f.Every == 0 {
+		return ErrInjected
+	}
+
+	return f.BackingStore.Put(ctx, typ, r)
+}
+
+func (f *FaultyStore) Destroy(ctx context.Context, typ resource.Type, ptr resource.Pointer) error {
+	if f.N.Add(1)%f.Every == 0 {
+		return ErrInjected
+	}
+
+	return f.BackingStore.Destroy(ctx, typ, ptr)
 }
